@@ -267,6 +267,16 @@ def rescale(g, P, lam):
     return (f.norm(f.mul(P[0], l2)), f.norm(f.mul(P[1], f.mul(l2, lam))), f.norm(lam))
 
 
+def special_lambdas(g, rng):
+    """scaling factors for Jacobian representatives that have a structure of their own: -1, small, and for Fq2 the
+    purely imaginary and purely real ones (a zero component in Z)"""
+    f = FQ if g == 1 else FQ2
+    out = [f.neg(f.one), f.small(2)]
+    if g == 2:
+        out += [(0, 1), (0, rng.randrange(1, Q)), (rng.randrange(2, Q), 0), (0, Q - 1)]
+    return out
+
+
 def identity_rep(g, t):
     f = FQ if g == 1 else FQ2
     t2 = f.mul(t, t)
